@@ -337,6 +337,39 @@ func random(a *hk.Args) error {
 				kind string
 				key  string
 			}
+			// race-directed preemption: a contender that has listed the lock directory and is about to look at the heartbeat file it
+			// found there is held back while the holder releases the lock (and possibly takes it again) - the window between the
+			// two reads of one staleness decision
+			if rng.Intn(3) == 0 {
+				for _, p := range procs {
+					c := w.Gate.Peek(p)
+					if c == nil || w.Dead(p) || (c.Ev.Op != "Stat" && c.Ev.Op != "Lstat") || filepath.Clean(c.Ev.Path) != w.hbFile {
+						continue
+					}
+					for _, q := range procs {
+						if q == p || w.Dead(q) || !w.Holding(q) || w.Busy(q) != "" {
+							continue
+						}
+						drain := func() {
+							for i := 0; i < 300 && w.Busy(q) != ""; i++ {
+								if pc := d.parked(q); pc != nil {
+									d.release(pc)
+								}
+							}
+						}
+						if err := w.StartAPI(q, "Unlock"); err == nil {
+							drain()
+							if rng.Intn(2) == 0 {
+								if err := w.StartAPI(q, "TryLock"); err == nil {
+									drain()
+								}
+							}
+						}
+						break
+					}
+					break
+				}
+			}
 			var moves []move
 			for _, p := range procs {
 				if w.Dead(p) {
